@@ -1054,8 +1054,9 @@ Proof.
     apply (R_par 1 x [] (render_full x) []); [apply all_ws_nil|apply IH; exact W|apply all_ws_nil].
   - cbn [wf_ast] in W. apply andb_prop in W. destruct W as [Wl Wr]. cbn [render_full].
     pose proof (lvl_range op) as R.
-    change (40%N :: render_full l ++ 41%N :: 32%N :: op_text op ++ 32%N :: 40%N :: render_full r ++ [41%N])
-      with (([] ++ 40%N :: render_full l ++ [] ++ [41%N]) ++ [32%N] ++ op_text op ++ ([32%N] ++ 40%N :: render_full r ++ [] ++ [41%N])).
+    replace (40%N :: render_full l ++ 41%N :: 32%N :: op_text op ++ 32%N :: 40%N :: render_full r ++ [41%N])
+      with (([] ++ 40%N :: render_full l ++ [] ++ [41%N]) ++ [32%N] ++ op_text op ++ ([32%N] ++ 40%N :: render_full r ++ [] ++ [41%N]))
+      by (cbn [app]; rewrite <- app_assoc; cbn [app]; reflexivity).
     apply R_bin; [lia| |apply ws_blank|].
     + apply R_par; [apply all_ws_nil|apply IHl; exact Wl|apply all_ws_nil].
     + apply R_par; [apply ws_blank|apply IHr; exact Wr|apply all_ws_nil].
@@ -1172,4 +1173,18 @@ Qed.
 Lemma cmp_of_not_rejected_proof : forall op a b, cmp_of op <> None -> to_ifexpr (ABin op (ANot a) b) = None.
 Proof.
   intros op a b H. cbn [to_ifexpr]. destruct (cmp_of op); [reflexivity|contradiction].
+Qed.
+
+Lemma cmp_lvl : forall op, cmp_of op <> None -> lvl op <= 7.
+Proof. destruct op; simpl; intros H; try lia; contradiction. Qed.
+
+(* every comparison binds tighter than &&: a && x cmp y = a && (x cmp y) *)
+Lemma cmp_tighter_than_and_proof : forall op a x y sa sx sy w1 w2 w3,
+  cmp_of op <> None ->
+  rend 8 a sa -> rend (lvl op) x sx -> rend (lvl op - 1) y sy -> all_ws w1 -> all_ws w2 -> all_ws w3 ->
+  parse_ast (sa ++ w1 ++ [38; 38]%N ++ (sx ++ w2 ++ op_text op ++ sy) ++ w3)
+  = Some (ABin BAnd a (ABin op x y)).
+Proof.
+  intros op a x y sa sx sy w1 w2 w3 Hc. pose proof (cmp_lvl op Hc).
+  apply (tighter_right_proof op BAnd a x y sa sx sy w1 w2 w3). simpl. lia.
 Qed.
